@@ -54,6 +54,13 @@ def gen_cases(tier, seed, ctx):
         sch = ['s%d' % rnd.randrange(1, max(2, len(d) // (nshort + 1))) for _ in range(nshort)] + rnd.choice([[], ['ok'], ['eintr'], ['eio']])
         fb = rnd.randbytes(rnd.choice([0, 3, 50])); pos = rnd.randrange(0, len(fb) + 5)
         cases.append(E.Case('i%d' % len(cases), 'IOSEQ write_data %s %s %d %s' % (','.join(sch), hx(fb), pos, hx(d)), dict(kind='ioseq-write_data-shortrun')))
+    # ... and a short write followed by interrupted retries (and the other way round): the retry starts where the short write stopped
+    for _ in range(40 if tier == 'quick' else 400):
+        d = rnd.randbytes(rnd.choice([5, 40, 300, 3000]))
+        k = 's%d' % rnd.randrange(1, len(d))
+        sch = rnd.choice([[k, 'eintr'], [k, 'eintr', 'eintr'], ['eintr', k], ['eintr', k, 'eintr'], [k, 'eintr', 'ok']])
+        fb = rnd.randbytes(rnd.choice([0, 3, 50])); pos = rnd.randrange(0, len(fb) + 5)
+        cases.append(E.Case('i%d' % len(cases), 'IOSEQ write_data %s %s %d %s' % (','.join(sch), hx(fb), pos, hx(d)), dict(kind='ioseq-write_data-short-eintr')))
     for _ in range(30 if tier == 'quick' else 300):
         tb = rnd.randbytes(rnd.choice([100, 32768, 40000])); ob = rnd.randbytes(rnd.choice([0, 60]))
         pre = ['ok'] * rnd.choice([1, 2])                # the seek (and a read) go through, then the write is short several times
